@@ -644,7 +644,14 @@ class TCPHiddenServiceEndpoint(object):
                         group_readable=self.group_readable,
                         version=self.version,
                     )
-            self.hiddenservice = yield create_d
+            try:
+                self.hiddenservice = yield create_d
+            except Exception:
+                # the service didn't come up, so don't leave our
+                # local listener behind
+                port, self.tcp_listening_port = self.tcp_listening_port, None
+                yield defer.maybeDeferred(port.stopListening)
+                raise
 
         else:
             if not self.ephemeral:
